@@ -286,7 +286,9 @@ class Inliner:
         return out
 
     def _body(self, n, stack, depth):
-        return _block(self._list(_stmts(n), stack, depth), n)
+        b = {k: v for k, v in n.items() if k != "i"} if n.get("k") == "CompoundStmt" else {"k": "CompoundStmt", "line": n.get("line")}
+        b["i"] = self._list(_stmts(n), stack, depth)
+        return b
 
     # ------------------------------------------------------------------ statements
     def _list(self, stmts, stack, depth):
@@ -459,6 +461,23 @@ class Inliner:
                     h = self.helper(y, stack)
                     if h is not None and not self._exprlike(h):
                         return self._inline(h, y, "assign", (x, lhs), stack, depth)
+            # 3b. lhs op= h(..): evaluate the helper into a temporary first
+            if x is not None and x.get("k") == "CompoundAssignOperator":
+                lhs, rhs = cir.kids(x)
+                y = cir.strip(rhs)
+                if cir.is_call(y) and cir.is_pure(lhs):
+                    h = self.helper(y, stack)
+                    if h is not None and not self._exprlike(h):
+                        self._tmp += 1
+                        tid = f"inl{self._tmp}:{h.get('n')}"
+                        t = y.get("t")
+                        decl = {"k": "VarDecl", "line": x.get("line"), "id": tid, "n": f"_{h.get('n')}_result", "t": t, "i": [], "split": True}
+                        ref = {"k": "DeclRefExpr", "line": x.get("line"), "t": t, "ref": {"id": tid, "k": "VarDecl", "n": decl["n"], "t": t}}
+                        asg = {"k": "BinaryOperator", "op": "=", "line": x.get("line"), "t": t, "i": [ref, rhs], "decl_init": tid}
+                        body = self._inline(h, y, "assign", (asg, ref), stack, depth)
+                        upd = {kk: v for kk, v in x.items() if kk != "i"}
+                        upd["i"] = [lhs, clone(ref)]
+                        return [{"k": "DeclStmt", "line": x.get("line"), "i": [decl]}] + body + [upd]
             # 4. T v = h(..)
             if k == "DeclStmt":
                 ds = [d for d in cir.kids(s) if d is not None]
@@ -1308,3 +1327,117 @@ def enum_cases(gs, enumerators, subject=None):
             else:
                 live -= allowed
     return live, constrained
+
+
+# ---------------------------------------------------------------------- normalised unit view
+class ViewUnit:
+    """A Unit look-alike whose functions are canonical views: static helpers that only one function calls (and whose address
+    is never taken) are analysed inside that caller; shared helpers, public functions and `keep` stay functions of their own.
+    Rules written against "the function that does X" then see the same thing whether X's parts live in private helpers or
+    not."""
+
+    def __init__(self, unit, keep=(), nested=False, propagate=False, procedures_only=True):
+        self._u = unit
+        self.tu = unit.tu
+        self.ir = unit.ir
+        callers = {}
+        addr_taken = set()
+        for name, fn in unit.funcs.items():
+            for x in cir.walk(fn):
+                if cir.is_call(x):
+                    c = cir.callee(x)
+                    if c in unit.funcs and c != name:
+                        callers.setdefault(c, set()).add(name)
+                    for a in cir.args(x):
+                        s = cir.strip(a)
+                        if s is not None and s.get("k") == "DeclRefExpr" and (s.get("ref") or {}).get("k") == "FunctionDecl":
+                            addr_taken.add(s["ref"].get("n"))
+                elif x.get("k") == "DeclRefExpr" and (x.get("ref") or {}).get("k") == "FunctionDecl":
+                    pass
+        for v in unit.vars.values():
+            for x in cir.walk(v):
+                if x.get("k") == "DeclRefExpr" and (x.get("ref") or {}).get("k") == "FunctionDecl":
+                    addr_taken.add(x["ref"].get("n"))
+        self.private = {n for n, fn in unit.funcs.items()
+                        if fn.get("storageClass") == "static" and fn.get("file") in (None, unit.tu) and n not in keep
+                        and n not in addr_taken and len(callers.get(n, ())) == 1
+                        and (not procedures_only or (fn.get("t") or "").startswith("void ("))
+                        and (cir.body(fn) or {}).get("sfile") in (None, unit.tu)}
+        self.exclude = tuple(sorted(n for n in unit.funcs if n not in self.private))
+        self._cache = {}
+        self.nested = nested
+        self.propagate = propagate
+        self.funcs = _ViewFuncs(self)
+        for attr in ("protos", "vars", "records", "enums", "typedefs"):
+            setattr(self, attr, getattr(unit, attr))
+
+    def view(self, name):
+        if name not in self._cache:
+            fn = self._u.funcs[name]
+            I = Inliner(self._u, depth=4, pred=lambda h: h.get("n") in self.private)
+            f2 = I.expand(fn)
+            if self.nested:
+                f2 = nest(f2)
+            if self.propagate:
+                f2 = propagate_locals(f2)
+            f2 = dict(f2)
+            f2["inlined"] = sorted({h for _c, h, _l in I.inlined})
+            self._cache[name] = f2
+        return self._cache[name]
+
+
+class _ViewFuncs:
+    """dict-like: the functions of the unit that remain functions of their own, as canonical views.  A private helper that
+    could not be analysed inside its caller (it returns from inside a loop, or is called in an unsupported position) stays
+    visible."""
+
+    def __init__(self, vu):
+        self.vu = vu
+        self._left = None
+
+    def _names(self):
+        if self._left is None:
+            u = self.vu._u
+            pub = [n for n in u.funcs if n not in self.vu.private]
+            still = set()
+            for n in pub:
+                v = self.vu.view(n)
+                for c in cir.calls(v):
+                    if cir.callee(c) in self.vu.private:
+                        still.add(cir.callee(c))
+            # helpers of helpers that stayed
+            work = list(still)
+            while work:
+                h = work.pop()
+                for c in cir.calls(self.vu.view(h)):
+                    if cir.callee(c) in self.vu.private and cir.callee(c) not in still:
+                        still.add(cir.callee(c))
+                        work.append(cir.callee(c))
+            self._left = [n for n in u.funcs if n not in self.vu.private or n in still]
+        return self._left
+
+    def __contains__(self, k):
+        return k in self._names()
+
+    def __getitem__(self, k):
+        if k not in self._names():
+            raise KeyError(k)
+        return self.vu.view(k)
+
+    def get(self, k, default=None):
+        return self[k] if k in self else default
+
+    def __iter__(self):
+        return iter(self._names())
+
+    def keys(self):
+        return list(self._names())
+
+    def items(self):
+        return [(k, self[k]) for k in self._names()]
+
+    def values(self):
+        return [self[k] for k in self._names()]
+
+    def __len__(self):
+        return len(self._names())
